@@ -554,20 +554,29 @@ func (c *Ctx) rangeShareOwner(rule string, fn *ssa.Function, rg *ssa.Range) {
 				}
 			}
 		}
-		// every send of val goes to the peer obtained for key
-		nsend := 0
-		for _, ci := range Calls(fn, func(ci ssa.CallInstruction) bool {
-			return ci.Common().IsInvoke() && namedIs(ci.Common().Value.Type(), pkgSender, "Service")
-		}) {
-			uses := false
-			for _, a := range ci.Common().Args {
-				if a == val {
-					uses = true
-				}
+		// every send of val goes to the peer obtained for key (directly, or in a helper that is given both)
+		nsend := c.sendsToOwner(rule, fn, key, val, 0)
+		if nsend == 0 {
+			c.R.Unknown(rule, Fn(fn), c.Pos(rg), "the iteration over distribution secrets does not send them through the sender service")
+		}
+	}
+}
+
+// sendsToOwner checks, in fn, every sender-service call that transmits val: its peer argument is peers.Peer(key). Calls of
+// module helpers that receive val are followed (they must receive key as well). Returns the number of sends found.
+func (c *Ctx) sendsToOwner(rule string, fn *ssa.Function, key, val ssa.Value, depth int) int {
+	nsend := 0
+	for _, ci := range Calls(fn, func(ci ssa.CallInstruction) bool { return true }) {
+		uses := false
+		for _, a := range ci.Common().Args {
+			if a == val {
+				uses = true
 			}
-			if !uses {
-				continue
-			}
+		}
+		if !uses {
+			continue
+		}
+		if ci.Common().IsInvoke() && namedIs(ci.Common().Value.Type(), pkgSender, "Service") {
 			nsend++
 			okPeer := false
 			for _, a := range ci.Common().Args {
@@ -582,11 +591,40 @@ func (c *Ctx) rangeShareOwner(rule string, fn *ssa.Function, rg *ssa.Range) {
 			} else {
 				c.R.OK(rule, Fn(fn), c.Pos(ci), "share for id is sent to peers.Peer(id) of the same iteration")
 			}
+			continue
 		}
-		if nsend == 0 {
-			c.R.Unknown(rule, Fn(fn), c.Pos(rg), "the iteration over distribution secrets does not send them through the sender service")
+		h := ci.Common().StaticCallee()
+		if h == nil || !prog.InModule(h) || h.Blocks == nil || ci.Common().IsInvoke() {
+			continue
 		}
+		if depth >= 2 {
+			c.R.Unknown(rule, Fn(fn), c.Pos(ci), "a distribution secret is passed down more than two helper levels")
+			nsend++
+			continue
+		}
+		var hk, hv ssa.Value
+		for ai, a := range ci.Common().Args {
+			if ai >= len(h.Params) {
+				continue
+			}
+			if a == val {
+				hv = h.Params[ai]
+			}
+			if a == key {
+				hk = h.Params[ai]
+			}
+		}
+		if hv == nil {
+			continue
+		}
+		if hk == nil {
+			nsend++
+			c.R.Fail(rule, Fn(fn), c.Pos(ci), "a participant's share is handed to "+Fn(h)+" without the id it was computed for", "the share travels with its owner's id", nil)
+			continue
+		}
+		nsend += c.sendsToOwner(rule, h, hk, hv, depth+1)
 	}
+	return nsend
 }
 
 func init() {
